@@ -375,7 +375,8 @@ def c03(trace, V):
         worst = (f3 + b3) / need * 100
         bad = worst > 0.1
         if bad.any():
-            V.fail("starving_no_feed", dict(idn, humans_keep_min_of_round1_and_threshold=bool(not_hurt)), {
+            V.fail("starving_no_feed", dict(idn, humans_keep_min_of_round1_and_threshold=bool(not_hurt), mechanism=mech,
+                                            round1_reaches_threshold=bool(three and p1 >= T)), {
                 "final_percent_fed": p_final, "threshold": T, "month": first_bad(bad),
                 "feed_plus_biofuel_percent_of_monthly_need": float(worst[bad][0]), "max": float(worst.max())},
                 "final result is below the minimum share, yet human-edible food goes to feed/biofuel")
